@@ -254,6 +254,11 @@ def run(chk, ctx) -> None:
         def floor(self, rule, n):
             return None
     _divmod(_Split(chk), ctx)
+    # ... with the package's own division by default (exact for fractional chips), wherever a variant is built
+    from .helpers import Refile as _Re, default_helpers
+    default_helpers(chk, ctx, 'C14.split', ['state', 'games', 'notation'])
+    from .c01 import _helpers
+    _helpers(_Re(chk, {'C01.helpers': 'C14.split'}, only=lambda r, c: c == 'utilities.divmod'), ctx)
     from .cover import board_rows
     board_rows(chk, ctx, 'C14.indexing')
     # which board the next cards go to: the first board still owed cards (with several boards a street may be dealt in pieces)
